@@ -449,11 +449,25 @@ struct Value {
         // addresses are base58-check encoded, so we decode them first
         do_base58chkdec();
         if (data.empty()) return; // decoding failed (diagnostic already printed)
-        // they are now prefixed with a 0x00; rip that out
+        // they are now prefixed with a version byte, which says what kind of script the 20-byte hash stands for
+        if (data.size() != 21) {
+            fprintf(stderr, "not an address: the payload is %zu bytes, expected a version byte and a 20 byte hash\n", data.size());
+            data.clear();
+            return;
+        }
+        const uint8_t version = data[0];
         data.erase(data.begin());
         // wrap in appropriate script fluff
         CScript s;
-        s << OP_DUP << OP_HASH160 << data << OP_EQUALVERIFY << OP_CHECKSIG;
+        if (version == 0x00 || version == 0x6f) {           // P2PKH (main net / test net)
+            s << OP_DUP << OP_HASH160 << data << OP_EQUALVERIFY << OP_CHECKSIG;
+        } else if (version == 0x05 || version == 0xc4) {    // P2SH (main net / test net)
+            s << OP_HASH160 << data << OP_EQUAL;
+        } else {
+            fprintf(stderr, "unknown address version %u (known: P2PKH 0 / 111, P2SH 5 / 196)\n", version);
+            data.clear();
+            return;
+        }
         data.clear();
         insert(data, s);
     }
